@@ -37,6 +37,23 @@ def main():
             print('%-50s %d' % (c, len(v)))
             for d in v[:3]:
                 print('    ', json.dumps(d['key'])[:200])
+    elif cmd == 'accept-all':
+        # accept every unlisted divergence, one finding per class, described by a common text
+        what = args[0]
+        tier = args[1] if len(args) > 1 else 'quick'
+        known = common.load_findings(pid)
+        n = 0
+        with open(os.path.join(common.KF_DIR, pid + '.jsonl'), 'a') as f:
+            for d in last(pid, tier):
+                ks = common.keystr(d['key'])
+                if d['known'] or ks in known:
+                    continue
+                if match and match not in d['cls']:
+                    continue
+                known[ks] = 1
+                f.write(json.dumps(dict(**{'class': d['cls']}, key=d['key'], what=what), sort_keys=True) + '\n')
+                n += 1
+        print('accepted', n)
     elif cmd == 'accept':
         cls, what = args[0], args[1]
         tier = args[2] if len(args) > 2 else 'quick'
